@@ -162,12 +162,46 @@ def r5_promotion_counts(ctx):
     r.check(bool(e) and all(f.dominated_by_edges(p, e) for p in pops), 'pop-behind-limit', f.file, 'pending_open is popped only while can_inc_num_send_streams()')
 
 
+def r6_open_queue_membership(ctx):
+    r = ctx.rule('C05.R6', 'GUARD', 'every locally initiated stream whose HEADERS are queued goes through pending_open unless its PUSH_PROMISE is still queued (which hands it over)')
+    F = ctx.facts
+    f = r.fn(P + 'send::Send::send_headers')
+    if not f:
+        return
+    qo = [bi for bi, t in f.calls_to(P + 'prioritize::Prioritize::queue_open')]
+    qf = [bi for bi, t in f.calls_to(P + 'prioritize::Prioritize::queue_frame')]
+    r.floor(len(qo), 1, 'queue_open site in Send::send_headers')
+    li_t = core.guard_edges(F, f, ['proto::peer::Dyn::is_local_init'], lambda l: l is True)
+    pp_f = core.edges_where(F, f, lambda sw: sw.kind == 'bool' and mentions_field(sw.subject, STREAM, 'is_pending_push'), lambda l: l is False)
+    ok = bool(li_t) and bool(pp_f) and all(f.dominated_by_edges(q, li_t) and f.dominated_by_edges(q, pp_f) for q in qo)
+    r.check(ok, 'queue_open|condition', f.file, 'queue_open is executed exactly under is_local_init(id) && !stream.is_pending_push' if ok else
+            'the condition under which Send::send_headers queues a stream on pending_open is not is_local_init && !is_pending_push: a locally initiated (e.g. pushed) stream can send its HEADERS without ever being counted against the peer\'s SETTINGS_MAX_CONCURRENT_STREAMS')
+    # completeness: from the conjunction every path to queue_frame passes queue_open
+    okc = ok
+    for (a, b) in pp_f:
+        if li_t and f.dominated_by_edges(a, li_t):
+            reach = f.reachable([b], cut_blocks=qo)
+            if any(q in reach for q in qf):
+                okc = False
+    r.check(okc, 'queue_open|complete', f.file, 'under that condition no path reaches queue_frame without queue_open')
+    # the hand-over: pop_frame's PushPromise arm clears is_pending_push and counts or queues the promised stream
+    pf = F.fn(P + 'prioritize::Prioritize::pop_frame')
+    if pf:
+        arm = core.edges_where(F, pf, lambda sw: sw.kind == 'variant' and sw.adt == 'frame::Frame', lambda l: l == frozenset(['PushPromise']))
+        clr = [bi for bi, si, pl, rv, ln in pf.stmts() if core.write_target(pf, pl) == (STREAM, 'is_pending_push')]
+        inc = [bi for bi, t in pf.calls_to(COUNTS + '::inc_num_send_streams')]
+        qop = [bi for bi, t in pf.calls_to(P + 'prioritize::Prioritize::queue_open')]
+        r.check(bool(arm) and bool(clr) and bool(inc) and bool(qop) and all(pf.dominated_by_edges(x, arm) for x in clr + inc + qop), 'handover|push-promise-arm', pf.file,
+                'when a PUSH_PROMISE is written the promised stream stops being pending_push and is counted (or queued on pending_open) there')
+
+
 def run(ctx):
     guarded_increments(ctx, 'C05.R1', 'concurrency counters move only behind their limit check (same function, true edge)', GUARDED, 3)
     r2_single_decrement(ctx)
     r3_transition_discipline(ctx)
     r4_refusal(ctx)
     r5_promotion_counts(ctx)
+    r6_open_queue_membership(ctx)
 
 
 ENTRY_OWNERS = [P + 'streams::Streams::', P + 'streams::StreamRef::', P + 'streams::OpaqueStreamRef::', P + 'streams::DynStreams::',
